@@ -7,6 +7,7 @@ import (
 	"io"
 	"path/filepath"
 	"reflect"
+	"sort"
 	"strconv"
 	"strings"
 	"unicode/utf8"
@@ -883,8 +884,14 @@ func (n *IncludeNode) Render(w io.Writer, ctx *RenderContext) error {
 
 	// Pre-evaluate all variables before setting them
 	if len(n.variables) > 0 {
-		for name, valueNode := range n.variables {
-			value, err := ctx.EvaluateExpression(valueNode)
+		// (in a fixed order: which value fails first must not depend on map order)
+		names := make([]string, 0, len(n.variables))
+		for name := range n.variables {
+			names = append(names, name)
+		}
+		sort.Strings(names)
+		for _, name := range names {
+			value, err := ctx.EvaluateExpression(n.variables[name])
 			if err != nil {
 				return err
 			}
